@@ -90,7 +90,8 @@ def attacks_for(v: Victim):
         out.append(("deref_mut-method", "use ::core::ops::DerefMut; let mut t = t; let _r = t.deref_mut();", "use ::core::ops::Deref; let t = t; let _r = t.deref();"))
         out.append(("mem-swap-through-deref", "let mut t = t; let mut x = x; ::core::mem::swap(&mut *t, &mut x);", "let t = t; let _ = (&*t, x);"))
         if v.elem:
-            for m in ("t.push(1)", "t.clear()", "t.get_mut(0)", "t.iter_mut()", "t.sort()", "t.truncate(0)", "t[0] = 5"):
+            for m in ("t.push(1)", "t.clear()", "t.get_mut(0)", "t.iter_mut()", "t.sort()", "t.truncate(0)", "t[0] = 5", "t.extend([1])", "t.swap(0, 1)", "t.retain(|_| false)",
+                      "t.drain(..)", "t.as_mut_slice()", "t.first_mut()", "::core::mem::take(&mut *t)", "t.dedup()", "t.reverse()", "t.append(&mut vec![0])"):
                 out.append(("mutating-method-through-deref:" + m, "let mut t = t; let _ = { %s; };" % m, "let t = t; let _ = t.len();"))
         if v.inner == "String":
             for m in ("t.make_ascii_uppercase()", "t.push('x')", "t.clear()", "t.as_mut_str()", "t.insert(0, ' ')"):
@@ -100,6 +101,14 @@ def attacks_for(v: Victim):
         out.append(("as_mut", "let mut t = t; let _r: &mut %s = t.as_mut();" % target, "let t = t; let _r: &%s = t.as_ref();" % target))
     if "Borrow" in d:
         out.append(("borrow_mut", "use ::core::borrow::BorrowMut; let mut t = t; let _r: &mut Inner = t.borrow_mut();", "use ::core::borrow::Borrow; let t = t; let _r: &Inner = t.borrow();"))
+    if v.elem:
+        out.append(("collect-into-newtype", "let _v: TT = vec![1, 2].into_iter().collect();", "let _v: Vec<i32> = vec![1, 2].into_iter().collect(); let _ = (t, x);"))
+        out.append(("Extend-on-newtype", "let mut t = t; ::core::iter::Extend::extend(&mut t, [1]);", "let mut w: Vec<i32> = vec![]; ::core::iter::Extend::extend(&mut w, [1]); let _ = (t, x);"))
+        out.append(("IndexMut-on-newtype", "let mut t = t; *::core::ops::IndexMut::index_mut(&mut t, 0) = 9;", "let t = t; let _ = ::core::ops::Index::index(&*t, 0); let _ = x;") if "Deref" in d else
+                   ("IndexMut-on-newtype", "let mut t = t; *::core::ops::IndexMut::index_mut(&mut t, 0) = 9;", "let _ = (t, x);"))
+    if v.inner in ("i32", "f64"):
+        out.append(("AddAssign-on-newtype", "let mut t = t; t += x;", "let mut y = x; y += x; let _ = t;"))
+        out.append(("arithmetic-yielding-newtype", "let _v: TT = t + t;", "let _ = (t, x);") if "Copy" in d else ("arithmetic-yielding-newtype", "let _v: TT = t + make();", "let _ = (t, x);"))
     if "IntoIterator" in d:
         out.append(("for-in-mut-ref", "let mut t = t; for y in &mut t { *y = 0; }", "let t = t; for _y in &t {}"))
         out.append(("into_iter-on-mut-ref", "let mut t = t; for y in (&mut t).into_iter() { let _z: &mut i32 = y; }", "let t = t; for y in (&t).into_iter() { let _z: &i32 = y; }"))
